@@ -329,11 +329,25 @@ func TestC20(t *testing.T) {
 	var detRedraw int64
 	rapid.Check(t, func(rt *rapid.T) {
 		op := rapid.SampledFrom([]string{"inverse", "mulm", "mulv", "transpose"}).Draw(rt, "op")
+		sparse := rapid.Bool().Draw(rt, "sparse")
 		gen := func(label string) [3][3]float64 {
 			var m [3][3]float64
 			for i := range m {
 				for j := range m[i] {
 					m[i][j] = rapid.Float64Range(-4, 4).Draw(rt, label)
+					if sparse {
+						// structured matrices: exact zeros and small integers off the diagonal (diagonal, diagonal plus
+						// one element, triangular, permutation-like, shears), a non-zero diagonal
+						switch z := rapid.IntRange(0, 9).Draw(rt, label+"z"); {
+						case i != j && z < 6:
+							m[i][j] = 0
+						case z == 6:
+							m[i][j] = float64(rapid.IntRange(-2, 2).Draw(rt, label+"int"))
+						}
+						if i == j && m[i][j] == 0 {
+							m[i][j] = 1
+						}
+					}
 				}
 			}
 			return m
